@@ -19,6 +19,7 @@ import (
 	"sync"
 	"sync/atomic"
 
+	"github.com/bradenaw/juniper/iterator"
 	"github.com/bradenaw/juniper/stream"
 	"github.com/bradenaw/juniper/xmath/xrand"
 
@@ -82,9 +83,11 @@ type rig struct {
 	// the combinator keeps its looked-ahead item when its callback fails (While's item/has pair):
 	// a callback that fails once and then succeeds must not cost an item
 	cbRetry bool
-	build   func(srcs []*sx.Src, c *cb) sstream                                         // nil for reducers
-	reduce  func(ctx context.Context, srcs []*sx.Src, c *cb) (result string, err error) // reducers
-	intInt  func(s stream.Stream[int], c *cb) stream.Stream[int]                        // for pipelines
+	// the rig has no scripted source that could fail: only context faults apply
+	noSrcFaults bool
+	build       func(srcs []*sx.Src, c *cb) sstream                                         // nil for reducers
+	reduce      func(ctx context.Context, srcs []*sx.Src, c *cb) (result string, err error) // reducers
+	intInt      func(s stream.Stream[int], c *cb) stream.Stream[int]                        // for pipelines
 }
 
 func intRig(name string, hasCB bool, f func(s stream.Stream[int], c *cb) stream.Stream[int]) rig {
@@ -128,6 +131,20 @@ func rigs() []rig {
 		}),
 		intRig("WithPeek", false, func(s stream.Stream[int], c *cb) stream.Stream[int] { return peekDriver{stream.WithPeek(s)} }),
 		{name: "Join(a,b)", nsrc: 2, build: func(s []*sx.Src, c *cb) sstream { return erase(stream.Join[int](s[0], s[1])) }},
+		// FromIterator and Chan have no stream source to fail; what can fail is the per-call context
+		// (with data available and an expired context either answer is acceptable, and costs nothing)
+		{name: "FromIterator", nsrc: 1, noSrcFaults: true, build: func(s []*sx.Src, c *cb) sstream {
+			return closing{erase(stream.FromIterator(iterator.Slice(srcItems(s[0])))), s[0]}
+		}},
+		{name: "Chan", nsrc: 1, noSrcFaults: true, build: func(s []*sx.Src, c *cb) sstream {
+			items := srcItems(s[0])
+			ch := make(chan int, len(items))
+			for _, x := range items {
+				ch <- x
+			}
+			close(ch)
+			return closing{erase(stream.Chan[int](ch)), s[0]}
+		}},
 		{name: "Flatten(a,b)", nsrc: 2, build: func(s []*sx.Src, c *cb) sstream {
 			outer := &sx.SrcOf[stream.Stream[int]]{Name: "outer", Items: []stream.Stream[int]{s[0], s[1]}}
 			outers.Store(s[0], outer)
@@ -170,6 +187,27 @@ func rigs() []rig {
 	}
 	return rs
 }
+
+// srcItems returns the values a scripted source would yield (for rigs that feed them through a
+// constructor instead of the source itself).
+func srcItems(s *sx.Src) []int {
+	var out []int
+	for _, st := range s.Steps {
+		if st.Err == nil && !st.Block {
+			out = append(out, st.Val)
+		}
+	}
+	return out
+}
+
+// closing marks the (unused) scripted source as closed when the stream under test is closed, so
+// that the ownership bookkeeping of C09 stays uniform.
+type closing struct {
+	sstream
+	src *sx.Src
+}
+
+func (c closing) Close() { c.sstream.Close(); c.src.Close() }
 
 // outer streams of the Flatten rig, keyed by their first inner source: Flatten only owns the inner
 // streams that the outer stream has actually handed out.
@@ -523,6 +561,9 @@ func inputs(maxLen int) [][]int {
 func faultPlans(r rig, ins [][]int, two bool) [][]fault {
 	var singles []fault
 	for si, in := range ins {
+		if r.noSrcFaults {
+			break
+		}
 		for p := 0; p <= len(in); p++ {
 			singles = append(singles, fault{"perm", si, p}, fault{"transient", si, p})
 		}
